@@ -1310,6 +1310,28 @@ VARIANTS += [
          edits=[dict(file='ipa-core/src/protocol/ipa_prf/validation_protocol/validation.rs', find='        .await\n        .unwrap();\n\n        // From the perspective of the *prover_left*, _left_ is the other helper and _right_ is this verifier\n        let challenges_for_prover_left = other_hashes_prover_left\n            .hashes\n            .iter()\n            .zip(my_hashes_prover_left.hashes.iter())\n            .zip(once(exclude_large).chain(repeat(exclude_small)))\n            .map(|((hash_left, hash_right), exclude)| {\n                hash_to_field(hash_left, hash_right, exclude)\n            });\n\n        // From the perspective of the *prover_right*, _left_ is this helper and _right_ is the other verifier\n        let challenges_for_prover_right = my_hashes_prover_right\n            .hashes\n            .iter()\n            .zip(other_hashes_prover_right.hashes.iter())\n            .zip(once(exclude_large).chain(repeat(exclude_small)))\n            .map(|((hash_left, hash_right), exclude)| {\n                hash_to_field(hash_left, hash_right, exclude)\n            });\n\n        (\n            challenges_for_prover_left.collect(),\n            challenges_for_prover_right.collect(),\n        )\n    }\n\n', replace='        .await\n        .unwrap();\n\n        // one challenge per proof from the hashes of the verifiers left and right of a prover\n        let combine = |hashes_left: &[Hash], hashes_right: &[Hash]| -> Vec<Fp61BitPrime> {\n            hashes_left\n                .iter()\n                .zip(hashes_right.iter())\n                .zip(once(exclude_large).chain(repeat(exclude_small)))\n                .map(|((hash_left, hash_right), exclude)| {\n                    hash_to_field(hash_left, hash_right, exclude)\n                })\n                .collect()\n        };\n\n        (\n            // From the perspective of the *prover_left*, _left_ is the other helper and _right_ is this verifier\n            combine(&other_hashes_prover_left.hashes, &my_hashes_prover_left.hashes),\n            // From the perspective of the *prover_right*, _left_ is this helper and _right_ is the other verifier\n            combine(&my_hashes_prover_right.hashes, &other_hashes_prover_right.hashes),\n        )\n    }\n\n')]),
 ]
 
+# round B5 (C08, C09, C11, C20)
+VARIANTS += [
+    dict(prop="C09", name="boolean-decode-three-arm-match", benign=True,
+         edits=[dict(file='ipa-core/src/ff/boolean.rs', find='    }\n\n    fn deserialize(buf: &GenericArray<u8, Self::Size>) -> Result<Self, Self::DeserializationError> {\n        if buf[0] > 1 {\n            return Err(ParseBooleanError(buf[0]));\n        }\n        Ok(Boolean(buf[0] != 0))\n    }\n}\n\n', replace='    }\n\n    fn deserialize(buf: &GenericArray<u8, Self::Size>) -> Result<Self, Self::DeserializationError> {\n        match buf[0] {\n            0 => Ok(Boolean(false)),\n            1 => Ok(Boolean(true)),\n            other => Err(ParseBooleanError(other)),\n        }\n    }\n}\n\n')]),
+    dict(prop="C09", name="rp25519-decode-match", benign=True,
+         edits=[dict(file='ipa-core/src/ff/curve_points.rs', find='    }\n\n    fn deserialize(buf: &GenericArray<u8, Self::Size>) -> Result<Self, Self::DeserializationError> {\n        let point = CompressedRistretto((*buf).into());\n        let point = point.decompress().ok_or(NonCanonicalEncoding(point))?;\n        Ok(Self::from(point))\n    }\n}\n\n', replace='    }\n\n    fn deserialize(buf: &GenericArray<u8, Self::Size>) -> Result<Self, Self::DeserializationError> {\n        let compressed = CompressedRistretto((*buf).into());\n        match compressed.decompress() {\n            Some(point) => Ok(Self::from(point)),\n            None => Err(NonCanonicalEncoding(compressed)),\n        }\n    }\n}\n\n')]),
+    dict(prop="C08", name="accumulate-with-for-each", benign=True,
+         edits=[dict(file='ipa-core/src/ff/accumulator.rs', find='\n    #[inline]\n    fn multiply_accumulate(&mut self, lhs: &[F; N], rhs: &[F; N]) {\n        for i in 0..N {\n            self.value[i] += A::from(lhs[i].as_u128()) * A::from(rhs[i].as_u128());\n        }\n        self.count += 1;\n        if self.count == REDUCE_INTERVAL {\n            // Modulo, not really a truncation.\n', replace='\n    #[inline]\n    fn multiply_accumulate(&mut self, lhs: &[F; N], rhs: &[F; N]) {\n        self.value\n            .iter_mut()\n            .zip(lhs.iter().zip(rhs.iter()))\n            .for_each(|(acc, (l, r))| {\n                *acc += A::from(l.as_u128()) * A::from(r.as_u128());\n            });\n        self.count += 1;\n        if self.count == REDUCE_INTERVAL {\n            // Modulo, not really a truncation.\n')]),
+    dict(prop="C20", name="auth-layer-is-some-early-return", benign=True,
+         edits=[dict(file='ipa-core/src/net/server/handlers/query/mod.rs', find='    }\n\n    fn call(&mut self, req: Request<B>) -> Self::Future {\n        match req.extensions().get::<ClientIdentity<F::Identity>>() {\n            Some(ClientIdentity(_)) => self.inner.call(req).left_future(),\n            None => ready(Ok((\n                StatusCode::UNAUTHORIZED,\n                "This API requires the client helper to authenticate",\n            )\n                .into_response()))\n            .right_future(),\n        }\n    }\n}\n\n', replace='    }\n\n    fn call(&mut self, req: Request<B>) -> Self::Future {\n        let authenticated = req\n            .extensions()\n            .get::<ClientIdentity<F::Identity>>()\n            .is_some();\n        if !authenticated {\n            let rejection = (\n                StatusCode::UNAUTHORIZED,\n                "This API requires the client helper to authenticate",\n            )\n                .into_response();\n            return ready(Ok(rejection)).right_future();\n        }\n        self.inner.call(req).left_future()\n    }\n}\n\n')]),
+    dict(prop="C20", name="plaintext-service-helper", benign=True,
+         edits=[dict(file='ipa-core/src/net/server/mod.rs', find='\n        let task_handle = match (self.config.disable_https, listener) {\n            (true, Some(listener)) => {\n                let svc = svc\n                    .layer(layer_fn(SetClientIdentityFromHeader::<_, F>::new))\n                    .into_make_service();\n                spawn_server(\n                    runtime,\n                    axum_server::from_tcp(listener),\n', replace='\n        let task_handle = match (self.config.disable_https, listener) {\n            (true, Some(listener)) => {\n                let svc = plaintext_make_service::<F>(svc);\n                spawn_server(\n                    runtime,\n                    axum_server::from_tcp(listener),\n'), dict(file='ipa-core/src/net/server/mod.rs', find='            }\n            (true, None) => {\n                let addr = SocketAddr::new(BIND_ADDRESS.into(), self.config.port.unwrap_or(0));\n                let svc = svc\n                    .layer(layer_fn(SetClientIdentityFromHeader::<_, F>::new))\n                    .into_make_service();\n                spawn_server(runtime, axum_server::bind(addr), handle.clone(), svc).await\n            }\n            (false, Some(listener)) => {\n', replace='            }\n            (true, None) => {\n                let addr = SocketAddr::new(BIND_ADDRESS.into(), self.config.port.unwrap_or(0));\n                let svc = plaintext_make_service::<F>(svc);\n                spawn_server(runtime, axum_server::bind(addr), handle.clone(), svc).await\n            }\n            (false, Some(listener)) => {\n'), dict(file='ipa-core/src/net/server/mod.rs', find='    }\n}\n\n/// Spawns a new server with the given configuration.\n/// This function glues Tower, Axum, Hyper and Axum-Server together, hence the trait bounds.\n#[allow(clippy::unused_async)]\n', replace='    }\n}\n\n/// Wraps the router for serving over plain HTTP (TLS explicitly disabled), where the only available\n/// source of client identity is the identity header.\nfn plaintext_make_service<F: ConnectionFlavor>(router: Router) -> IntoMakeService<Router> {\n    router\n        .layer(layer_fn(SetClientIdentityFromHeader::<_, F>::new))\n        .into_make_service()\n}\n\n/// Spawns a new server with the given configuration.\n/// This function glues Tower, Axum, Hyper and Axum-Server together, hence the trait bounds.\n#[allow(clippy::unused_async)]\n')]),
+    dict(prop="C11", name="check-duplicates-for-loop", benign=True,
+         edits=[dict(file='ipa-core/src/report/hybrid.rs', find='    /// ## Errors\n    /// if the and item inserted is not unique among all in this batch and checked previously\n    pub fn check_duplicates<U: UniqueBytes>(&mut self, items: &[U]) -> Result<(), Error> {\n        items\n            .iter()\n            .try_for_each(|item| self.check_duplicate(item))?;\n        Ok(())\n    }\n}\n', replace='    /// ## Errors\n    /// if the and item inserted is not unique among all in this batch and checked previously\n    pub fn check_duplicates<U: UniqueBytes>(&mut self, items: &[U]) -> Result<(), Error> {\n        for item in items {\n            self.check_duplicate(item)?;\n        }\n        Ok(())\n    }\n}\n')]),
+    dict(prop="C11", name="unique-bytes-try-from-prefix", benign=True,
+         edits=[dict(file='ipa-core/src/report/hybrid.rs', find='    /// We use the `TagSize` (the first 16 bytes of the ciphertext) for collision-detection\n    /// See [analysis here for uniqueness](https://eprint.iacr.org/2019/624)\n    fn unique_bytes(&self) -> [u8; TAG_SIZE] {\n        let slice = &self.mk_ciphertext()[0..TAG_SIZE];\n        let mut array = [0u8; TAG_SIZE];\n        array.copy_from_slice(slice);\n        array\n    }\n}\n\n', replace='    /// We use the `TagSize` (the first 16 bytes of the ciphertext) for collision-detection\n    /// See [analysis here for uniqueness](https://eprint.iacr.org/2019/624)\n    fn unique_bytes(&self) -> [u8; TAG_SIZE] {\n        let tag_prefix = &self.mk_ciphertext()[..TAG_SIZE];\n        <[u8; TAG_SIZE]>::try_from(tag_prefix).expect("slice has exactly TAG_SIZE bytes")\n    }\n}\n\n')]),
+    dict(prop="C10", name="unique-bytes-try-from-prefix-bounds", benign=True,
+         edits=[dict(file='ipa-core/src/report/hybrid.rs', find='    /// We use the `TagSize` (the first 16 bytes of the ciphertext) for collision-detection\n    /// See [analysis here for uniqueness](https://eprint.iacr.org/2019/624)\n    fn unique_bytes(&self) -> [u8; TAG_SIZE] {\n        let slice = &self.mk_ciphertext()[0..TAG_SIZE];\n        let mut array = [0u8; TAG_SIZE];\n        array.copy_from_slice(slice);\n        array\n    }\n}\n\n', replace='    /// We use the `TagSize` (the first 16 bytes of the ciphertext) for collision-detection\n    /// See [analysis here for uniqueness](https://eprint.iacr.org/2019/624)\n    fn unique_bytes(&self) -> [u8; TAG_SIZE] {\n        let tag_prefix = &self.mk_ciphertext()[..TAG_SIZE];\n        <[u8; TAG_SIZE]>::try_from(tag_prefix).expect("slice has exactly TAG_SIZE bytes")\n    }\n}\n\n')]),
+    dict(prop="C11", name="duplicate-check-wrapper", benign=True,
+         edits=[dict(file='ipa-core/src/query/runner/hybrid.rs', find='        )\n        .await?;\n\n        let mut unique_encrypted_hybrid_reports = UniqueTagValidator::new(resharded_tags.len());\n        unique_encrypted_hybrid_reports.check_duplicates(&resharded_tags)?;\n\n        let indistinguishable_reports: Vec<IndistinguishableHybridReport<BA8, BA3>> =\n            decrypted_reports.into_iter().map(Into::into).collect();\n', replace='        )\n        .await?;\n\n        ensure_tags_unique(&resharded_tags)?;\n\n        let indistinguishable_reports: Vec<IndistinguishableHybridReport<BA8, BA3>> =\n            decrypted_reports.into_iter().map(Into::into).collect();\n'), dict(file='ipa-core/src/query/runner/hybrid.rs', find="    }\n}\n\npub async fn execute_hybrid_protocol<'a, R: PrivateKeyRegistry>(\n    prss: &'a Endpoint,\n    gateway: &'a Gateway,\n", replace="    }\n}\n\n/// Verifies that every tag this shard owns after resharding occurs exactly once.\n///\n/// ## Errors\n/// If two tags in `tags` carry the same bytes.\nfn ensure_tags_unique(tags: &[UniqueTag]) -> Result<(), Error> {\n    let mut validator = UniqueTagValidator::new(tags.len());\n    validator.check_duplicates(tags)\n}\n\npub async fn execute_hybrid_protocol<'a, R: PrivateKeyRegistry>(\n    prss: &'a Endpoint,\n    gateway: &'a Gateway,\n")]),
+]
+
 # rules shared between properties: the same edit must be reported under the other property too
 VARIANTS += [dict(v, prop="C05", name=v["name"] + "@C05") for v in VARIANTS
              if v["name"] in ("h1-shuffle-empty-shard-leaves", "sharded-shuffle-empty-shard-leaves", "reshard-closes-channels-on-input-error", "reshard-closes-before-matching-none")]
